@@ -194,6 +194,11 @@ impl<ErrType, R: CustomRead<ErrType>, BufferType: SliceWrapperMut<u8>, Alloc: Br
     CustomRead<ErrType> for CompressorReaderCustomIo<ErrType, R, BufferType, Alloc>
 {
     fn read(&mut self, buf: &mut [u8]) -> Result<usize, ErrType> {
+        if buf.is_empty() {
+            // no room to deliver anything: the loop below only ends once output was produced
+            // or the stream is finished, so it would never return for an empty buffer
+            return Ok(0);
+        }
         let mut nop_callback =
             |_data: &mut interface::PredictionModeContextMap<interface::InputReferenceMut>,
              _cmds: &mut [interface::StaticCommand],
